@@ -29,7 +29,7 @@ def make_cases(ctx):
     ndev = n // 10
     cases += scopelib.generated(ctx, n - ndev, prefix="w")
     # a tenth of the workspaces also contains the scenarios of the recorded findings
-    cases += scopelib.generated(ctx, ndev, deviations=("forward", "uses-member"), prefix="v")
+    cases += scopelib.generated(ctx, ndev, deviations=("forward", "uses-member", "typeref-shadowed"), prefix="v")
     return cases
 
 
@@ -45,7 +45,8 @@ def run(ctx):
         "WellFormedWs (Props/C10.lean): stems pairwise distinct up to case, every file declares the entity named like its stem as its first declaration, all members and uses precede the first method, declaration uids distinct; parent chains are followed with fuel = number of files (acyclic forests are complete; cycles are C14's subject)",
         "one manager per queried file: answers are those of a server that has analysed nothing else before (which documents were analysed earlier can change the table a descendant's parent pointer refers to: cache coherence is C02's subject)",
         "line ends separate nothing: the identifier-initial line after a dangling `x.` continues the chain (`x.⏎name = 1` is `x.name = 1`); its first identifier is expected to resolve as a member of x's class. After a dot only field / method names (or names the class does not declare at all) are generated: constants, types, `self` and entity names after a dot are outside the generator's domain",
-        "alias types are resolved through the class's own chain or through used modules (entities that depend on nothing), so that no table is consulted while it is half built by a cyclic dependency",
+        "alias types are resolved through the class's own chain or through used modules (entities that depend on nothing), so that no table is consulted while it is half built by a cyclic dependency; for the same reason a type name that nothing declares (`var v : tNowhere` — the implementation looks for it in every used entity, analysing them at that moment) is only written in entities whose uses list names modules and missing entities only",
+        "a field spelt like a class / module X is only generated where X is no relative of the declaring class and no entity that sees the field by the plain rule lists X in its uses: what go-to-definition on a uses ENTRY (or a type reference) answers when a variable of that name is visible follows the plain rule in the implementation (the variable), which the property does not settle — see notes/C10.md, discrepancies",
     ]
     ctx.extract(["E8_ScopeConsts"])      # native keys, intrinsics, completion filters: the model consumes them
     if ctx.replay:
@@ -117,6 +118,9 @@ RULE = ("cases = corpus/C10 witnesses + generated workspaces (inheritance forest
         "another letter case, locals/params shadowing members, consts/types/aliases, chained access through fields, function calls and modules, "
         "uses lists that also name entities without a file at any position, methods without a body (external / forward) with parameters in classes "
         "and modules, dangling dots followed by keyword lines and by identifier-initial lines that continue the chain, "
+        "parameters / locals / fields SPELT LIKE a class or module of the workspace in any letter case (left of a dot, as argument, as plain identifier; the entity's name "
+        "itself where nothing hides it), parameters spelt like keywords that are identifiers (type, from, order …), locals / parameters spelt like a method or a field, "
+        "dots on operands without a class (native and undeclared types, untyped parameters, undeclared names, procedure and intrinsic results) with complete, partial and no name behind them, "
         "references re-cased at random) x every identifier occurrence (plain, left of dot, k-th element of a chain, own declared names, type, parent "
         "and uses references incl. the missing entities, names only a body-less method's parameter carries, unresolvable names); one evaluation = one definition request on the real ProjectManager compared with the model and "
         "with the generator's declaration map; distinct_nontrivial = number of distinct non-empty implementation answers")
